@@ -3,6 +3,7 @@ package main
 import (
 	"bytes"
 	"fmt"
+	"github.com/islishude/bip39"
 	"os"
 	"os/exec"
 	"strings"
@@ -19,6 +20,12 @@ func runConcChild() {
 	lines := strings.Split(strings.TrimRight(string(data), "\n"), "\n")
 	fmt.Sscan(lines[0], &n)
 	ops = lines[1:]
+	// `sharedbuf <hex>`: one buffer whose disjoint windows the `encw` ops encode concurrently
+	if len(ops) > 0 && strings.HasPrefix(ops[0], "sharedbuf ") {
+		sharedOrig = unhx(strings.Fields(ops[0])[1])
+		sharedBuf = append([]byte(nil), sharedOrig...)
+		ops = ops[1:]
+	}
 	res := make([]string, len(ops))
 	var wg sync.WaitGroup
 	start := make(chan struct{})
@@ -39,6 +46,9 @@ func runConcChild() {
 		if strings.HasPrefix(op, "newmd ") {
 			continue
 		}
+		if sharedOrig != nil {
+			sharedBuf = append([]byte(nil), sharedOrig...) // the reference run sees the bytes the caller put there
+		}
 		seq := execOpConc(op)
 		if seq != res[i] {
 			bad++
@@ -52,6 +62,21 @@ func runConcChild() {
 // hook itself); `newmd n l` uses the default source.
 func execOpConc(op string) string {
 	f := strings.Fields(op)
+	if f[0] == "encw" {
+		// NewMnemonicByEntropy on a window of the shared buffer (its capacity runs to the end of the buffer)
+		var l int64
+		var off, n int
+		fmt.Sscan(f[1], &l)
+		fmt.Sscan(f[2], &off)
+		fmt.Sscan(f[3], &n)
+		return guarded(func() string {
+			s, err := bip39.NewMnemonicByEntropy(sharedBuf[off:off+n], bip39.Language(l))
+			if err != nil {
+				return errKind(err)
+			}
+			return "ok " + hx([]byte(s))
+		})
+	}
 	if f[0] == "newmd" {
 		var n, l int64
 		fmt.Sscan(f[1], &n)
@@ -60,6 +85,8 @@ func execOpConc(op string) string {
 	}
 	return execOp(op)
 }
+
+var sharedBuf, sharedOrig []byte
 
 func init() { props["C12"] = propC12 }
 
@@ -152,6 +179,24 @@ func propC12(c *Ctx) {
 		}
 		c.rng.Shuffle(len(ops), func(a, b int) { ops[a], ops[b] = ops[b], ops[a] })
 		c.concScenario("all-languages-cold-start", len(ops), ops)
+	}
+	// disjoint windows of ONE caller buffer encoded concurrently (a key-derivation loop over a big random
+	// block): if the package writes anywhere outside what it allocates itself — past the length of the
+	// entropy slice, into its spare capacity — the neighbouring goroutine's entropy is overwritten while it
+	// is being read
+	winReps := 2
+	if !c.quick {
+		winReps = 20
+	}
+	for k := 0; k < winReps; k++ {
+		size := entSizes[(k+int(r.Seed))%5]
+		nwin := 24
+		buf := c.randBytes(size*nwin + 64)
+		ops := []string{"sharedbuf " + hx(buf)}
+		for w := 0; w < nwin; w++ {
+			ops = append(ops, fmt.Sprintf("encw %d %d %d", langVals[(w+k)%10], w*size, size))
+		}
+		c.concScenario("shared-buffer-windows", nwin, ops)
 	}
 	// same language hammered by many goroutines (the once-vs-nil-check window)
 	reps := 3
